@@ -73,11 +73,15 @@ Definition spliceInsertData (p : siparams) : list Z :=
   ++ (if hasDuration then time5 (126 + b2z autoReturn 128) (p_dur p) else [])
   ++ [(p_upid p / 256) mod 256; p_upid p mod 256; p_avail p mod 256; p_avails p mod 256].
 
-(** subtractPTS(s.pts = 0, commandInfo.PTS()): the section's own pts is never set by livesim2
-    (it calls cmd.SetPTS, not s.SetPTS), so the pts_adjustment field is 2^33 - pts_time. *)
+(** CreateSpliceInsertPayload calls s.SetAdjustPTS(cmd.PTS()) after SetCommandInfo, so the section's
+    adjusted PTS equals the command PTS; UpdateData writes pts_adjustment = subtractPTS(s.pts, cmd.PTS()). *)
+Definition subtractPTS (final initial : Z) : Z :=
+  if final >=? initial then final - initial else two33 - (initial - final).
+
 Definition ptsAdjust (p : siparams) : Z :=
-  let cpts := (p_pts p) mod two33 in
-  if 0 >=? cpts then 0 - cpts else two33 - (cpts - 0).
+  let cpts := (p_pts p) mod two33 in          (* cmd.PTS() *)
+  let spts := cpts in                          (* s.pts after SetAdjustPTS(cmd.PTS()) *)
+  subtractPTS spts cpts.
 
 Definition spliceInsertType : Z := 5.
 
@@ -120,13 +124,14 @@ Definition isValidSCTE35Interval (perMinute : Z) : bool :=
 Definition ad_seconds (perMinute : Z) : Z := if perMinute =? 1 then 20 else 10.
 Definition announce_lead : Z := 7.
 Definition minute_s : Z := 60.          (* segStart % (60 * timescale) *)
+Definition next_minute_first : Z := 70. (* append(spliceInsertTimes, minuteStart+70*timescale) *)
 Definition pts_clock : Z := 90000.      (* spliceTime*90000/timescale *)
 
 Definition scte_err : string := "scte35 per minute must be 1, 2, or 3".
 
 Definition params_for (spliceTime adDuration timescale : Z) : siparams :=
   let emsgID := spliceTime / timescale in
-  {| p_pts := (u64 (spliceTime * pts_clock) / timescale) mod two33;
+  {| p_pts := u64 (emsgID * pts_clock) mod two33;
      p_dur := u64 (adDuration * pts_clock) / timescale;
      p_event := u32 emsgID;
      p_tier := 4095; p_upid := 0; p_avail := 0; p_avails := 0;
@@ -142,7 +147,8 @@ Definition createEmsgAhead (segStart segEnd timescale perMinute : Z) : res (opti
     let modMinute := segStart mod m60 in
     let minuteStart := segStart - modMinute in
     let adDuration := u64 (ad_seconds perMinute * timescale) in
-    let sits := map (fun off => u64 (minuteStart + u64 (off * timescale))) offs in
+    (* the documented offsets of this minute, then the first splice of the next minute *)
+    let sits := map (fun off => u64 (minuteStart + u64 (off * timescale))) (offs ++ [next_minute_first]) in
     let hit := find (fun sit =>
                        let announceTime := u64 (sit - u64 (announce_lead * timescale)) in
                        (segStart <? announceTime) && (announceTime <=? segEnd)) sits in
@@ -175,6 +181,18 @@ Definition segment_emsg (isVideo : bool) (scte : option Z) (segStart dur timesca
   | Some n => if isVideo then createEmsgAhead segStart (u64 (segStart + dur)) timescale n else Ok None
   | None => Ok None
   end.
+
+(** livesegment.go writeChunkedSegment / chunkSegment (chunkdur_<s>/: availabilityTimeComplete=false):
+    the response is rebuilt from the samples of the generated segment into new fragments made by
+    createChunk; since b6338c6 the emsg boxes that genLiveSegment added to the segment are copied to the
+    first chunk (before, they were dropped: [chunked_drops_emsg] was true). An error of genLiveSegment
+    is passed on. *)
+Definition chunked_drops_emsg : bool := false.
+
+Definition delivered_emsg (chunked isVideo : bool) (scte : option Z) (segStart dur timescale : Z) : res (option emsg) :=
+  if chunked && chunked_drops_emsg then
+    match segment_emsg isVideo scte segStart dur timescale with Ok _ => Ok None | r => r end
+  else segment_emsg isVideo scte segStart dur timescale.
 
 (** livempd.go L234-241: InbandEventStream on video adaptation sets iff scte35 is configured. *)
 Definition inband_event_stream (isVideo : bool) (scte : option Z) : bool :=
